@@ -70,6 +70,8 @@ def gen_plan(rng, tier, run):
             # environment: on the BMC (built-in default directory, no -p) or on a workstation
             "bmc": rng.random() < 0.2,
             # process model: every invocation in a fresh module set (= its own process) or all in one process
+            # how paths are spelled on the command line: absolute, relative to the cwd, with a trailing slash
+            "path_style": rng.choice(["abs", "abs", "abs", "rel", "slash"]),
             "fresh": rng.random() < 0.4,
             "exclude": rng.sample(common.REFCODE_POOL, rng.randint(0, 5)) + ["B1234567"], "ops": []}
     pool = list(files)
@@ -187,6 +189,10 @@ def execute(plan):
     mutated = False
     with World(bmc=plan.get("dname", "D") if plan.get("bmc") else None) as w:
         w.fresh_per_run = bool(plan.get("fresh"))
+        w.path_style = plan.get("path_style", "abs")
+        w.rel_dot = bool(plan.get("fresh"))
+        if w.path_style != "abs":
+            bump("path_style:" + w.path_style)
         if plan.get("bmc"):
             bump("environment:bmc")
         bump("process_model:fresh" if w.fresh_per_run else "process_model:shared")
